@@ -304,10 +304,49 @@ class StandardObserver:
 
         sbase.safe_file_dump = safe_file_dump
 
+    def install_training_hooks(self):
+        """One event per flow training: validation losses, stopping, which weights are kept (Training.tla)."""
+        from nessai.flowmodel.base import FlowModel
+
+        obs = self
+        orig_validate = FlowModel._validate
+        orig_train = FlowModel.train
+
+        def _validate(fm, *a, **k):
+            r = orig_validate(fm, *a, **k)
+            rec = getattr(fm, "_vf_train", None)
+            if rec is not None:
+                rec["losses"].append(float(r))
+                rec["digests"].append(state_digest(fm.model))
+            return r
+
+        def train(fm, *a, **k):
+            fm._vf_train = {"losses": [], "digests": []}
+            try:
+                return orig_train(fm, *a, **k)
+            finally:
+                rec = fm.__dict__.pop("_vf_train", None)
+                if rec and rec["losses"]:
+                    tc = fm.training_config
+                    final = state_digest(fm.model)
+                    restored = max([i + 1 for i, d in enumerate(rec["digests"]) if d == final] or [0])
+                    vals = sorted(set(x for x in rec["losses"] if x == x))
+                    rank = {x: i + 1 for i, x in enumerate(vals)}
+                    obs.em.emit("train", losses=[rank.get(x, 0) for x in rec["losses"]],
+                                max_epochs=int(k.get("max_epochs") or tc["max_epochs"]),
+                                patience=int(k.get("patience") or tc["patience"]),
+                                validate=bool((k.get("val_size") if k.get("val_size") is not None
+                                               else tc["val_size"]) != 0.0),
+                                restored=int(restored))
+
+        FlowModel._validate = _validate
+        FlowModel.train = train
+
     def install_model_hooks(self):
         from nessai.model import Model
 
         obs = self
+        obs.install_training_hooks()
         # --- likelihood calls (support check, evaluation counting, kill injection)
         orig_batch = Model.batch_evaluate_log_likelihood
 
